@@ -963,3 +963,6 @@ CASES["C06"] += [
      "        # also, if there is another launch between us and the loop start, abort\n",
      "        if for_op.results[iter_arg_idx].uses.get_length() != 0:\n            return\n        # also, if there is another launch between us and the loop start, abort\n", []),
 ]
+CASES["C12"] += [
+    ("reintroduce F-52 (cast chain fused across a cast with other users)", "mutant", "snaxc/transforms/realize_memref_casts.py", "@revert:bf1360a~1", "", ["C12.chain"]),
+]
